@@ -2,7 +2,7 @@
    Real-closed field R (exact arithmetic with square roots), every n, every order m. *)
 From mathcomp Require Import all_ssreflect all_algebra.
 From TinyGP Require Import Base.Ops Base.LMat Model.QSMCore Model.QSMSolve
-  Theory.MxRefine Theory.QSMDen Theory.QSMMatmul Theory.QSMChol.
+  Theory.MxRefine Theory.QSMDen Theory.QSMMatmul Theory.QSMChol Theory.QSMCholSPD.
 Set Implicit Arguments. Unset Strict Implicit. Unset Printing Implicit Defensive.
 Import Order.TTheory GRing.Theory Num.Theory.
 Local Open Scope ring_scope.
@@ -17,3 +17,15 @@ Theorem C07_chol_sound (R : rcfType) (d : vec R) (l : tri R) :
       den (tn l) (Lower L.1 L.2) *m (den (tn l) (Lower L.1 L.2))^T = den (tn l) (Symm d l)].
 Proof. exact: chol_sound. Qed.
 Print Assumptions C07_chol_sound.
+
+(* Positive definiteness in the form of Sylvester's criterion: when every leading principal block (`den k`, the same
+   generators at size k) has a positive determinant, all pivots are positive, so the factorisation above applies:
+   every symmetric positive-definite quasiseparable matrix, however produced, is factorised exactly. *)
+Theorem C07_chol_sound_spd (R : rcfType) (d : vec R) (l : tri R) :
+  (forall k, (k <= tn l)%N -> 0 < \det (den k (Symm d l))) ->
+  let L := cholesky (@fops R Num.sqrt (fun x y => x < y)) d l in
+  [/\ tm L.2 = tm l, tn L.2 = tn l,
+      (forall k, (k < tn l)%N -> 0 < nth 0 L.1 k) &
+      den (tn l) (Lower L.1 L.2) *m (den (tn l) (Lower L.1 L.2))^T = den (tn l) (Symm d l)].
+Proof. exact: chol_sound_spd. Qed.
+Print Assumptions C07_chol_sound_spd.
